@@ -406,6 +406,10 @@ func (rf *RouteFamily) corsResult(e *FuncEnc, rt, tpl string, st *state) (string
 	}
 	name := "func:" + shortType(ft)
 	res := e.DynPureTerm(name, 0, []string{fv, e.D.SeqLit(ms), e.D.SeqLit(hs)}, []string{"Int", "GSeq", "GSeq"}, "Iface")
+	// environment: the user's CORS constructor returns a handler (a nil result
+	// would make a literal branch fall through to its variable sibling's answer)
+	e.Assumed["the user's CORS handler constructor returns a non-nil handler"] = true
+	e.assume("true", not(eq(sx("if_tag", res), "0")))
 	return ite(eq(fv, "0"), "iface_nil", res), "str_empty", "false"
 }
 
